@@ -3,9 +3,15 @@
    that C03 talks about; the check is C03's decidable clause on the observation. *)
 From Coq Require Import List Bool Arith String.
 Import ListNotations.
-From Lime Require Import Base.Res Hs.Types Hs.Server Hs.Monitor Corr.HsServer Corr.HsChecks.
-Definition case := scase.
-Definition check (c : scase) : bool := c03_check c.
-Definition agrees (c : scase) : bool := evs_eqb (c03_proj (k_obs c)) (c03_proj (model_obs c)).
-Definition mismatches (cs : list scase) : list nat := bad_indices agrees cs.
-Definition violations (cs : list scase) : list nat := bad_indices check cs.
+From Lime Require Import Base.Res Hs.Types Hs.Server Hs.Monitor Corr.HsServer Corr.HsChecks Hs.Builder Corr.Builder.
+(* besides the scripted handshakes against a Server configured directly: ServerBuilders and the Servers they
+   build (Corr/Builder.v) *)
+Inductive case := KScript (c : scase) | KB (b : bcase).
+Definition check (c : case) : bool := match c with KScript s => c03_check s | KB b => check_c03 b end.
+Definition agrees (c : case) : bool :=
+  match c with
+  | KScript c => evs_eqb (c03_proj (k_obs c)) (c03_proj (model_obs c))
+  | KB b => agrees_c03 b
+  end.
+Definition mismatches (cs : list case) : list nat := bad_indices agrees cs.
+Definition violations (cs : list case) : list nat := bad_indices check cs.
